@@ -64,6 +64,39 @@ func (w *World) concreteInt(fr *frame, v Value, what string) int64 {
 	return sext64(c, t.w)
 }
 
+// allocSize concretises an allocation size.  A symbolic size is cut to
+// <= MaxSymAlloc (recorded as a cut: larger allocations are outside the claim).
+func (w *World) allocSize(fr *frame, v Value, typ types.Type) int64 {
+	t := v.(*Term)
+	signed := true
+	if b := basicOf(typ); b != nil {
+		_, signed, _ = intWidth(b)
+	}
+	if c, ok := t.Const64(); ok {
+		if signed {
+			return sext64(c, t.w)
+		}
+		return int64(c)
+	}
+	t64 := w.tt.Resize(t, 64, signed)
+	lim := w.bounds.MaxSymAlloc
+	if lim <= 0 {
+		lim = 64
+	}
+	if v, ok := w.ext["maxsymalloc"]; ok {
+		if c, ok := v.(*Term).Const64(); ok {
+			lim = int(c)
+		}
+	}
+	small := w.tt.Cmp(OpSLe, t64, w.tt.BV(64, uint64(lim)))
+	if small != w.tt.T {
+		w.res.Cuts[fmt.Sprintf("symbolic-allocation-size<=%d", lim)]++
+		w.assume(small, "symbolic allocation size")
+	}
+	c := w.concretize(t64, "alloc@"+w.posLabel(fr, fr.curInstr))
+	return int64(c)
+}
+
 // index checks 0 <= idx < n (forking a panic path) and returns a concrete index.
 func (w *World) index(fr *frame, idx Value, it types.Type, n int) int {
 	t := idx.(*Term)
@@ -124,6 +157,9 @@ func (w *World) sliceOp(fr *frame, instr *ssa.Slice) Value {
 	}
 	switch x := x.(type) {
 	case Str:
+		if x.opq {
+			w.unsupported(fr, "slice of a string with unknown content")
+		}
 		n := int64(x.Len())
 		if hi < 0 {
 			hi = n
@@ -132,9 +168,11 @@ func (w *World) sliceOp(fr *frame, instr *ssa.Slice) Value {
 			w.rtPanic(fr, fmt.Sprintf("slice bounds out of range [%d:%d] with length %d", lo, hi, n))
 		}
 		if x.b != nil {
-			return w.mkStr(x.b[lo:hi])
+			r := w.mkStr(x.b[lo:hi])
+			r.taint = x.taint
+			return r
 		}
-		return Str{s: x.s[lo:hi]}
+		return Str{s: x.s[lo:hi], taint: x.taint}
 	case []Value:
 		c := int64(cap(x))
 		if hi < 0 {
@@ -335,10 +373,15 @@ func (w *World) binop(fr *frame, op token.Token, t types.Type, x, y Value) Value
 		}
 		switch op {
 		case token.ADD:
-			if xv.b == nil && yv.b == nil {
-				return Str{s: xv.s + yv.s}
+			if xv.opq || yv.opq {
+				return Str{opq: true, taint: xv.taint | yv.taint}
 			}
-			return w.mkStr(append(append([]*Term{}, w.strBytes(xv)...), w.strBytes(yv)...))
+			if xv.b == nil && yv.b == nil {
+				return Str{s: xv.s + yv.s, taint: xv.taint | yv.taint}
+			}
+			r := w.mkStr(append(append([]*Term{}, w.strBytes(xv)...), w.strBytes(yv)...))
+			r.taint = xv.taint | yv.taint
+			return r
 		case token.LSS, token.LEQ, token.GTR, token.GEQ:
 			xs, ok1 := xv.Concrete()
 			ys, ok2 := yv.Concrete()
@@ -502,6 +545,9 @@ func (w *World) equals(t types.Type, x, y Value) *Term {
 }
 
 func (w *World) strEq(x, y Str) *Term {
+	if x.opq || y.opq {
+		panic(pathEnd{"unsupported", "comparison of a string with unknown content (formatted from symbolic operands)"})
+	}
 	if x.Len() != y.Len() {
 		return w.tt.F
 	}
@@ -547,6 +593,9 @@ func (w *World) conv(fr *frame, tdst, tsrc types.Type, x Value) Value {
 	case *types.Slice:
 		// string -> []byte / []rune
 		s := x.(Str)
+		if s.opq {
+			w.unsupported(fr, "bytes of a string with unknown content")
+		}
 		switch ut_dst.Elem().Underlying().(*types.Basic).Kind() {
 		case types.Uint8:
 			bs := w.strBytes(s)
@@ -950,6 +999,9 @@ func (w *World) callBuiltin(fr *frame, fn *ssa.Builtin, args []Value) Value {
 	case "len":
 		switch x := args[0].(type) {
 		case Str:
+			if x.opq {
+				w.unsupported(fr, "len of a string with unknown content")
+			}
 			return tt.BV(64, uint64(x.Len()))
 		case Array:
 			return tt.BV(64, uint64(len(x)))
